@@ -8,6 +8,8 @@ let z_of_int n = if n = 0 then Z0 else if n > 0 then Zpos (pos_of_int n) else Zn
 let rec int_of_pos = function XH -> 1 | XI p -> 2 * int_of_pos p + 1 | XO p -> 2 * int_of_pos p
 let int_of_z = function Z0 -> 0 | Zpos p -> int_of_pos p | Zneg p -> - (int_of_pos p)
 
+let rec firstn_z n l = if n <= 0 then [] else match l with [] -> [] | x :: t -> x :: firstn_z (n - 1) t
+
 let hex l =
   let b = Buffer.create (2 * List.length l) in
   List.iter (fun z -> Buffer.add_string b (Printf.sprintf "%02x" (int_of_z z land 255))) l;
@@ -83,6 +85,86 @@ let case_bits () =
     | RN v, _ -> "|n" ^ string_of_int (int_of_z v)
     | _ -> "|?") ops rs)
 
+(* V coder p1..p5 nbytes datahex rawhex : model-level verification of one element's stored form.
+   prints  M dec=<hex|fail|na> enc=<hex|na> hdr=<hex>   where
+     dec = the raw stream decoded by the extracted Coq decoder (nbytes bytes),
+     enc = the stream the model encoder produces for the data (one write session),
+     hdr = the description record the model writes for length nbytes / comp_ref given *)
+let unhex h = List.init (String.length h / 2) (fun i -> z_of_int (int_of_string ("0x" ^ String.sub h (2 * i) 2)))
+let optstr = function None -> "fail" | Some l -> "h" ^ hex l
+
+let case_verify () =
+  let c = nexti () in
+  let p = Array.init 5 (fun _ -> nexti ()) in
+  let n = nexti () in
+  let cref = nexti () in
+  let data = let h = next () in if h = "-" then [] else unhex h in
+  let raw = let h = next () in if h = "-" then [] else unhex h in
+  let zn = z_of_int n in
+  let pl = Array.to_list (Array.map z_of_int p) in
+  let hdr = hex (hdr_record zn (z_of_int cref) Z0 (z_of_int c) pl) in
+  let dec, enc = match c with
+    | 0 -> optstr (Some (firstn_z n raw)), "h" ^ hex data
+    | 1 -> optstr (rle_decode_all raw zn), "h" ^ hex (rle_write_session [data])
+    | 2 -> let sz = nt_size p.(0) in
+           let cfg = { nb_size = z_of_int sz; nb_off = z_of_int p.(3); nb_len = z_of_int p.(4); nb_sign = (p.(1) = 1); nb_fill = (p.(2) = 1) } in
+           optstr (nbit_decode cfg raw (z_of_int (n / sz))), "h" ^ hex (nbit_encode cfg data)
+    | 3 -> optstr (skp_decode (z_of_int p.(0)) raw zn), "h" ^ hex (skp_encode (z_of_int p.(0)) data)
+    | _ -> "na", "na" in
+  "M dec=" ^ dec ^ " enc=" ^ enc ^ " hdr=" ^ hdr
+
+(* header cases: H coder p1..p5 -> the bytes HCPencode_header must produce and what decoding them gives back;
+   D n bytes -> decoding of arbitrary bytes *)
+let show_dec (m, c, ps) =
+  let ps = List.map int_of_z ps in
+  let rec pad l k = if k = 0 then [] else (match l with [] -> 0 :: pad [] (k - 1) | x :: t -> x :: pad t (k - 1)) in
+  "d" ^ String.concat "," (List.map string_of_int (int_of_z m :: int_of_z c :: pad ps 5))
+let case_header () =
+  let c = nexti () in
+  let p = List.init 5 (fun _ -> z_of_int (nexti ())) in
+  let bytes = hdr_encode Z0 (z_of_int c) p in
+  let ((m, cc), ps) = hdr_decode bytes in
+  "S n" ^ string_of_int (int_of_z (hdr_query_len (z_of_int c))) ^ "|b" ^ hex bytes ^ "|" ^ show_dec (m, cc, ps)
+let case_hdecode () =
+  let n = nexti () in
+  let bytes = List.init n (fun _ -> z_of_int (nexti ())) in
+  let ((m, cc), ps) = hdr_decode (bytes @ List.init 40 (fun _ -> Z0)) in
+  "S " ^ show_dec (m, cc, ps)
+
+(* bit cases on the model: sequential write phase, flush, read phases (seeks only while reading) *)
+let case_bits_model () =
+  let n = nexti () in
+  let w = ref (Some bitw_init) and bytes = ref [] and rd = ref None and out = Buffer.create 256 in
+  let supported = ref true in
+  Buffer.add_string out "M n0";
+  for _ = 1 to n do
+    let t = next () in
+    let tok =
+      if not !supported then (ignore (match t with "w" -> ignore (nexti ()); nexti () | "r" | "e" -> nexti () | "s" -> ignore (nexti ()); nexti () | _ -> 0); "?")
+      else match t with
+      | "w" -> let c = nexti () in let v = nexti () in
+               (match !w with Some s when !rd = None -> w := Some (bw_write s (z_of_int c) (z_of_int v)); "n" ^ string_of_int c
+                            | _ -> supported := false; "?")
+      | "e" -> ignore (nexti ());
+               (match !w with Some s -> bytes := bw_flush s; w := None | None -> ()); rd := None; "n0"
+      | "or" -> rd := Some (bitr_init !bytes); "n0"
+      | "r" -> let c = nexti () in
+               (match !rd with
+                | Some s -> (match br_read s (z_of_int c) with
+                             | Some (s', v) -> rd := Some s'; "v" ^ string_of_int (int_of_z v)
+                             | None -> supported := false; "?")
+                | None -> supported := false; "?")
+      | "s" -> let a = nexti () in let b = nexti () in
+               (match !rd with
+                | Some _ -> (match br_seek !bytes (z_of_int a) (z_of_int b) with
+                             | Some s' -> rd := Some s'; "n0" | None -> supported := false; "?")
+                | None -> supported := false; "?")
+      | "x" -> "x," ^ hex !bytes
+      | _ -> supported := false; "?" in
+    Buffer.add_string out ("|" ^ tok)
+  done;
+  Buffer.contents out
+
 let () =
   let ic = if Array.length Sys.argv > 1 then open_in Sys.argv.(1) else stdin in
   (try
@@ -93,7 +175,10 @@ let () =
       if have () then begin
         let out = (try (match next () with
           | "E" -> case_element ()
-          | "B" -> case_bits ()
+          | "B" -> let save = !ti in let a = case_bits () in ti := save; a ^ "\n" ^ case_bits_model ()
+          | "V" -> case_verify ()
+          | "H" -> case_header ()
+          | "D" -> case_hdecode ()
           | _ -> "S skip") with e -> "S error " ^ Printexc.to_string e) in
         print_string (out ^ "\n")
       end
